@@ -257,6 +257,37 @@ def run(ck, prog, tier, load):
         amt_ok = any(e_calls(pn.op_expr(pn.term(r_)["args"][1]), r"Bytes::len$") for r_ in rel)
         ck.ob("C08-e.capacity-released", "h2::Payload::poll_next", ok and amt_ok, pn, bb, "every chunk handed to the application is preceded by release_capacity(chunk.len())")
 
+    # ---- (f) connection-level plumbing that every stream depends on ---------------------------------------------
+    # keep-alive ping-pong: a PONG ends the "ping in flight" phase; if it does not, the next expiry of the (re-armed)
+    # interval timer is taken for a pong timeout and the connection, with every response still streaming, is dropped
+    dp = prog.one(r"^<actix_http::h2::dispatcher::Dispatcher<T, S, B, X, U> as core::future::future::Future>::poll$")
+    pong_ready = [tb for a in dp.live for br in [dp.branch(a)] if br and br[0][0] == "discr" and e_calls(br[0], r"PingPong::poll_pong$") for lab, tb in br[1] if lab == "Ready"]
+    ck.anchor("C08-f", len(pong_ready), 1, "Ready edge of poll_pong in h2 Dispatcher::poll")
+    clears = [bb for bb, i, s_ in dp.assigns() if any(isinstance(x, str) and x.endswith(".in_flight") for x in s_["p"][1:]) and dp.rv_expr(s_["rv"], 2)[:3] == ("const", None, 0)]
+    sets = [bb for bb, i, s_ in dp.assigns() if any(isinstance(x, str) and x.endswith(".in_flight") for x in s_["p"][1:]) and dp.rv_expr(s_["rv"], 2)[:3] == ("const", None, 1)]
+    pongs = [bb for bb, t in dp.calls(r"PingPong::poll_pong$")]
+    good_rets = set(bb for bb, e in dp.ret_exprs() if not (e[0] == "call" and rx(r"from_residual$").search(e[1] or "")) and not any(is_agg(x, r"Result::Err$") for x in walk(e)))
+    for tb in pong_ready:
+        # from the received pong, before poll_pong is asked again or the function returns, in_flight is cleared
+        ok = bool(clears) and dp.must_pass([tb], good_rets | set(pongs), clears)[0]
+        ck.ob("C08-f.pong-ends-in-flight", "h2 Dispatcher::poll", ok, dp, tb, "a received PONG clears ping_pong.in_flight on every path (otherwise the re-armed keep-alive interval is read as a pong timeout and the connection is closed under live streams)")
+    pings = [bb for bb, t in dp.calls(r"PingPong::send_ping$")]
+    for bb in pings:
+        ok = bool(sets) and dp.must_pass_after(bb, good_rets | set(pongs), sets)[0]
+        ck.ob("C08-f.ping-starts-in-flight", "h2 Dispatcher::poll", ok, dp, bb, "sending a PING marks it in flight before the pong is awaited")
+    # flow-control windows: each configured size reaches the setter of the same name (the stream window must not get the
+    # connection's size: one stream could then occupy the whole connection-level window)
+    PAIRS = {"initial_window_size": "h2_initial_window_size", "initial_connection_window_size": "h2_initial_connection_window_size"}
+    n_w = 0
+    for b in prog.find(r"^actix_http::h2::handshake_with_timeout$"):
+        for bb, t in b.calls(r"h2::server::Builder::(initial_window_size|initial_connection_window_size)$"):
+            n_w += 1
+            setter = cname(t).split("::")[-1]
+            arg = b.op_expr(t["args"][1], 4)
+            ok = bool(e_calls(arg, r"ServiceConfig::%s$" % PAIRS[setter])) and not e_calls(arg, r"ServiceConfig::%s$" % [v for k, v in PAIRS.items() if k != setter][0])
+            ck.ob("C08-f.window-sizes-not-swapped", setter, ok, b, bb, "Builder::%s receives ServiceConfig::%s(): %s" % (setter, PAIRS[setter], short(arg, 3)))
+    ck.anchor("C08-f", n_w, 2, "flow-control window setters in handshake_with_timeout")
+
 
 def _strip(e):
     while isinstance(e, tuple) and e[0] == "cast":
